@@ -325,7 +325,7 @@ def history_case(session, secret, cps, sid, cfg, d0, ops):
         cfg_term(cfg), hx(canon({} if d0 is None else d0)),
         clist(op_term(op) for op in ops))
     payload = {"secret": repr(secret), "compress": cps, "sid": sid,
-               "config": cfg, "data": canon(d0),
+               "config": cfg, "data": canon({} if d0 is None else d0),
                "ops": [[repr(x)[:80] for x in op] for op in ops],
                "observed": repr(obs + [final])[:600]}
     return term, v_text(obs + [final]), payload
@@ -533,8 +533,8 @@ def run(ctx):
                          rng.choice(["HDH", "vDH", "DvH", "WDWH"])]):
             add_history(letters, cfg=cfg)
     # random longer ones over the full alphabet (hostile loads included)
-    for _ in range(400 if ctx.quick else 4000):
-        n = rng.randint(4, 8)
+    for _ in range(250 if ctx.quick else 4000):
+        n = rng.randint(4, 6 if ctx.quick else 8)
         add_history([rng.choice("WDHvfntgexS") for _ in range(n)])
     # a few with large data
     for size in ([600, 5000] if ctx.quick else [300, 600, 1200, 2500, 5000]):
@@ -748,8 +748,10 @@ def run(ctx):
             raw, bucket = make_value(text, secret, cps), "valid-non-dict"
         elif kind == 4:
             # right base64, right compression, wrong mask
-            raw = make_value(b'{"user": "admin", "id": 1234567}',
-                             rnd_secret(rng), cps)
+            other = rnd_secret(rng)
+            while digest(other) == digest(secret):
+                other = rnd_secret(rng)
+            raw = make_value(b'{"user": "admin", "id": 1234567}', other, cps)
             bucket = "foreign-built"
         else:
             raw = rng.choice([
